@@ -42,7 +42,11 @@ def _run_variant(args):
     prop, kind, name, edits, want_rule = args
     from .__main__ import run_check
 
-    overlays = _apply(edits, ROOT)
+    if kind == "seeded":
+        from .patching import overlays_from_patch
+        overlays = overlays_from_patch(ROOT, edits)
+    else:
+        overlays = _apply(edits, ROOT)
     if overlays is None:
         return (kind, name, "stale", "")
     import ast as _ast
@@ -55,7 +59,7 @@ def _run_variant(args):
     fresh = getattr(rep, "fresh", [])
     if rep.errors:
         return (kind, name, "error", "; ".join(rep.errors)[:300])
-    if kind == "mutant":
+    if kind in ("mutant", "seeded"):
         if not fresh:
             return (kind, name, "missed", "no violation reported")
         if want_rule and not any(o.rule.startswith(want_rule) for o in fresh):
@@ -66,6 +70,30 @@ def _run_variant(args):
         if fresh:
             return (kind, name, "flagged", "; ".join(f"{o.rule}:{o.construct}" for o in fresh)[:300])
         return (kind, name, "silent", "")
+
+
+def seeded_jobs(prop: str):
+    """Confirmed changes written by independent sub-agents (/verif/seeded/*): those whose recorded outcome for this
+    property's check is 'caught' must still be caught (regression); patches are applied in memory."""
+    import json
+    from .patching import overlays_from_patch
+    root = os.path.join(os.path.dirname(os.path.dirname(os.path.abspath(__file__))), "seeded")
+    jobs = []
+    if not os.path.isdir(root):
+        return jobs
+    for name in sorted(os.listdir(root)):
+        mp = os.path.join(root, name, "meta.json")
+        pp = os.path.join(root, name, "patch.diff")
+        if not (os.path.exists(mp) and os.path.exists(pp)):
+            continue
+        meta = json.load(open(mp))
+        det = meta.get("detection", {})
+        by = det.get("by_property_check", {})
+        mine = by.get(prop, {})
+        if mine.get("rc") != 1:
+            continue
+        jobs.append((prop, "seeded", name, open(pp).read(), None))
+    return jobs
 
 
 def corpus(prop: str):
@@ -84,6 +112,7 @@ def run_for(prop: str, rep=None, verbose=True) -> int:
         jobs.append((prop, "mutant", name, edits, want))
     for b in benign:
         jobs.append((prop, "benign", b[0], b[1], None))
+    jobs += seeded_jobs(prop)
     if not jobs:
         if verbose:
             print(f"[{prop} selftest] no corpus")
@@ -93,12 +122,15 @@ def run_for(prop: str, rep=None, verbose=True) -> int:
         results = list(ex.map(_run_variant, jobs))
     bad = [r for r in results if r[2] in ("missed", "wrong-rule", "flagged", "error", "broken-variant")]
     stale = [r for r in results if r[2] == "stale"]
+    n_s = sum(r[0] == "seeded" for r in results)
     n_m = sum(r[0] == "mutant" for r in results)
     n_b = sum(r[0] == "benign" for r in results)
-    caught = sum(r[2] == "caught" for r in results)
+    caught = sum(r[2] == "caught" and r[0] == "mutant" for r in results)
+    caught_s = sum(r[2] == "caught" and r[0] == "seeded" for r in results)
     silent = sum(r[2] == "silent" for r in results)
     if verbose:
-        print(f"[{prop} selftest] mutants caught {caught}/{n_m}, benign silent {silent}/{n_b}, stale {len(stale)}")
+        print(f"[{prop} selftest] mutants caught {caught}/{n_m}, benign silent {silent}/{n_b}, independent seeded changes "
+              f"caught {caught_s}/{n_s}, stale {len(stale)}")
         for r in bad:
             print(f"ANALYSIS-ERROR property={prop} selftest {r[0]} '{r[1]}': {r[2]} {r[3]}")
         for r in stale:
@@ -123,7 +155,9 @@ def _augment_evidence(prop, results):
         return
     ev["coverage"]["armed_check"] = {
         "mutants": sum(r[0] == "mutant" for r in results),
-        "mutants_caught": sum(r[2] == "caught" for r in results),
+        "mutants_caught": sum(r[2] == "caught" and r[0] == "mutant" for r in results),
+        "seeded": sum(r[0] == "seeded" for r in results),
+        "seeded_caught": sum(r[2] == "caught" and r[0] == "seeded" for r in results),
         "benign": sum(r[0] == "benign" for r in results),
         "benign_silent": sum(r[2] == "silent" for r in results),
         "stale": sum(r[2] == "stale" for r in results),
